@@ -28,6 +28,38 @@ PROPS = {
         "assumptions": [],
         "explanation": "Close = drain + flush as model steps (always enabled), Open recomputes nextTs from stored versions = the old counter (maxTs_present)",
     },
+    "C05": {
+        "lean": "Originium.Props.C05",
+        "suites": ["key", "wm", "db"],
+        "skeleton_funcs": DB_SKEL,
+        "trusted_base": DB_TB + ["the watermark enters through its published values (C13): the model's `mark v` step accepts any value C13 allows, arbitrarily late"],
+        "assumptions": ["Begin is two steps (timestamp + wait for commitMark), Commit three steps under writeLock; finer interleavings inside one lock region are not distinguished"],
+        "explanation": "coupling invariant SInv between the abstract oracle (commit atomic at commitStart) and the storage (batch applied later), proved for every step; storeRead_eq_spec",
+    },
+    "C06": {
+        "lean": "Originium.Props.C06",
+        "suites": ["key", "db", "txnconc"],
+        "skeleton_funcs": DB_SKEL,
+        "trusted_base": DB_TB,
+        "assumptions": ["as C05; free-running goroutine histories are additionally checked by the serial-order checker in the txnconc suite"],
+        "explanation": "Inv2 (reads equal the MVCC value at readTs and, for a committed transaction, at commitTs-1), real-time order from timestamp monotonicity",
+    },
+    "C07": {
+        "lean": "Originium.Props.C07",
+        "suites": ["key", "db"],
+        "skeleton_funcs": DB_SKEL,
+        "trusted_base": DB_TB,
+        "assumptions": ["read and write sets are the keys themselves (after the F14 repair)"],
+        "explanation": "conflict_iff in every reachable state incl. clean-up of the committed list under arbitrary watermark lag",
+    },
+    "C08": {
+        "lean": "Originium.Props.C08",
+        "suites": ["key", "db"],
+        "skeleton_funcs": DB_SKEL,
+        "trusted_base": DB_TB,
+        "assumptions": [],
+        "explanation": "frame theorem for non-committing steps + invariant 'every commit in the history was produced by a successful Commit' + storage holds only history entries; API decision logic stated outright and used by the driver",
+    },
     "C09": {
         "lean": "Originium.Props.C09",
         "suites": ["key", "levels"],
